@@ -251,12 +251,18 @@ theorem rowBody_ext (c : DCfg) {x : Tok} (hx : stopper x = true) (r : List Tok) 
           simp at h; obtain ⟨rfl, rfl⟩ := h; rfl
         · simp at h
 
-theorem valuesRow_ext (c : DCfg) {x : Tok} (hx : stopper x = true) (hrow : x.isKw DK.ROW = false) (r : List Tok) (f d : Nat)
+theorem valuesRow_ext (c : DCfg) {x : Tok} (hx : stopper x = true) (r : List Tok) (f d : Nat)
     (ts : List Tok) (row : Row) (rest : List Tok) (h : valuesRow c f d ts = .ok (row, rest)) :
     valuesRow c f d (ts ++ x :: r) = .ok (row, rest ++ x :: r) := by
-  unfold valuesRow at h ⊢
-  rw [kwTail_app hrow]
-  exact rowBody_ext c hx r f d _ _ _ _ h
+  cases ts with
+  | nil => simp [valuesRow, kwTail, eatKw, rowBody, eatSym] at h
+  | cons a b =>
+    unfold valuesRow at h ⊢
+    have : kwTail DK.ROW (a :: b ++ x :: r) = app (x :: r) (kwTail DK.ROW (a :: b)) := by
+      simp only [kwTail, eatKw, List.cons_append]
+      cases a.isKw DK.ROW <;> simp [app]
+    rw [this]
+    exact rowBody_ext c hx r f d _ _ _ _ h
 
 -- ------------------------------------------------------------------ identifier lists in parentheses
 theorem identElem_nil (v : Tok) (rest : List Tok) : identElem [] ≠ .ok (v, rest) := by simp [identElem]
@@ -702,7 +708,7 @@ theorem setOpAhead_semi (ts r : List Tok) : setOpAhead (ts ++ semi :: r) = setOp
 
 theorem valuesRow_semi (c : DCfg) (r : List Tok) (f d : Nat) (ts : List Tok) (row : Row) (rest : List Tok)
     (h : valuesRow c f d ts = .ok (row, rest)) : valuesRow c f d (ts ++ semi :: r) = .ok (row, rest ++ semi :: r) :=
-  valuesRow_ext c semi_stopper (semi_isKw _) r f d ts row rest h
+  valuesRow_ext c semi_stopper r f d ts row rest h
 
 theorem valuesQuery_semi (c : DCfg) (r : List Tok) (f d : Nat) (kw : Tok) (ts : List Tok) (v : ValuesQ) (rest : List Tok)
     (h : valuesQuery c f d kw ts = .ok (v, rest)) : valuesQuery c f d kw (ts ++ semi :: r) = .ok (v, rest ++ semi :: r) := by
